@@ -258,6 +258,28 @@ theorem clone_discipline_needed_inplace :
             some [(Counter.k0, [0]), (Counter.k1, [11]), (Counter.k2, [22])], true⟩ :=
   ⟨Counter.inplace_asIs_ok, Counter.inplace_update_breaks_saved_version⟩
 
+/-- **Opening the currently loaded version while the working tree is dirty.** `heap_refines_pure`
+covers it like any other `LazyLoadVersion` (the handle represents the tree *saved* as that version,
+read from the root record — never the working root).  A fast path that reuses a persisted working
+root (seeded change C09-a) breaks exactly this: after `Remove` of a leaf directly under the root the
+persisted sibling is the working root, and the view of the last committed version, opened before the
+next commit, lacks the deleted key. -/
+theorem lazy_load_must_not_reuse_working_root :
+    Counter.lazyScenario false = some (.range [(Counter.k0, [0]), (Counter.k1, [1])]) ∧
+    Counter.lazyScenario true = some (.range [(Counter.k0, [0])]) :=
+  ⟨Counter.lazy_asIs_ok, Counter.lazy_fast_path_shows_uncommitted_state⟩
+
+/-- The general statement behind it: in any state satisfying the ownership invariant — dirty working
+tree included — `LazyLoadVersion target` hands out a handle representing what the pure model's
+`lazyLoadVersion` opens, i.e. for `target = T.version` the tree saved as the latest version. -/
+theorem lazy_load_of_loaded_version_while_dirty (H : HashIn → Hash) {sys : Sys} {T : Tree} {V : List (Option Node)}
+    (hown : Own H sys T V) (fuel : Nat) :
+    ∃ sys', stepH H Cfg.asIs fuel sys (.lazyLoad (T.version : Int)) =
+        some (sys', .opened (match T.lazyLoadVersion (T.version : Int) with | .view _ _ => true | _ => false)) ∧
+      Own H sys' T (pureViews T V (.lazyLoad (T.version : Int))) := by
+  obtain ⟨sys', e, ho, _⟩ := lazyLoad_refines H hown (T.version : Int) fuel
+  exact ⟨sys', e, ho⟩
+
 /-! ## Non-vacuity (stage B) -/
 
 /-- The initial system satisfies the ownership invariant (every cache size), so the hypotheses of
